@@ -185,26 +185,13 @@ func (p *Promise) Reject(e error) {
 func (p *Promise) resolve(r Ptr, e error) {
 	p.caller = nil
 
-	if len(p.clients) > 0 || p.ongoingCalls > 0 {
-		// Pending resolution or join state: wait for clients to be fulfilled
-		// and calls to have answers.  p.clients cannot be touched in the
-		// pending resolution state, so we have exclusive access to the
-		// variable.
-		if p.ongoingCalls > 0 {
-			p.callsStopped = make(chan struct{})
-		}
+	if p.ongoingCalls > 0 {
+		// Pending resolution or join state: wait for the calls already
+		// handed to the PipelineCaller to have answers.  New pipelined
+		// calls block until the promise is resolved.
+		p.callsStopped = make(chan struct{})
 		p.mu.Unlock()
-		res := resolution{p.method, r, e}
-		for path, row := range p.clients {
-			t := path.transform()
-			for i := range row {
-				row[i].promise.Fulfill(res.client(t))
-				row[i].promise = nil
-			}
-		}
-		if p.callsStopped != nil {
-			<-p.callsStopped
-		}
+		<-p.callsStopped
 		p.mu.Lock()
 	}
 
@@ -220,6 +207,27 @@ func (p *Promise) resolve(r Ptr, e error) {
 		close(ch)
 	}
 	p.signals = nil
+
+	// Fulfill the pipelined clients only now that the resolution is
+	// visible.  ClientPromise.Fulfill waits for the calls in flight
+	// through the client; such a call may be blocked in PipelineSend
+	// waiting for this very promise to resolve, so fulfilling the clients
+	// first (while pipelined calls were still being held back) could
+	// deadlock.  The table stays in p.clients for ReleaseClients; only
+	// the promise halves of the entries are consumed here.
+	clients := p.clients
+	if len(clients) > 0 {
+		p.mu.Unlock()
+		res := resolution{p.method, r, e}
+		for path, row := range clients {
+			t := path.transform()
+			for i := range row {
+				row[i].promise.Fulfill(res.client(t))
+				row[i].promise = nil
+			}
+		}
+		p.mu.Lock()
+	}
 }
 
 // Join ties the outcome of a promise to an answer's outcome.  The owner
